@@ -40,7 +40,7 @@ def render_weight(v):
 
 
 def flowir_for(n, given):
-    comps = [{"name": "c%d" % i, "stage": i, "command": {"executable": "echo", "arguments": "x"}} for i in range(n)]
+    comps = [{"name": "c%dk%d" % (i, k), "stage": i, "command": {"executable": "echo", "arguments": "x"}} for i in range(n) for k in range(4)]
     status = {}
     for i, v in enumerate(given):
         if v == MISSING:
@@ -141,35 +141,88 @@ class CountingLock:
         self.depth -= 1
 
 
+class FakeStatusDB:
+    def monitorComponent(self, *a, **k):
+        pass
+
+
 class StubController:
-    """Environment of StatusMonitor.CheckStatus: answers from the model state; get_stage_status is the real one."""
+    """Drives the REAL experiment.runtime.control.Controller (never run()): the model state is imposed on the real
+    ComponentState / comp_done / currentStage, and everything StatusMonitor.CheckStatus asks - stage(), stageState(),
+    get_stages_in_transit(), get_stages_finished(), get_stage_status() - is answered by the real Controller methods.
+    Every such call is a boundary at which another controller action may happen (unless the monitor holds comp_lock)."""
 
     def __init__(self, exp, Controller, codes):
+        import experiment.runtime.workflow as workflow
+        import networkx
         self.exp = exp
-        self.comp_lock = CountingLock()
-        self.nb = 0              # boundaries (calls into the controller) seen in this CheckStatus
-        self.inject_at = None    # (boundary index, action, arg): the controller action that happens meanwhile
-        self.injected = False
-        self._Controller = Controller
         self.codes = codes
-        self.log = __import__("logging").getLogger("stub")
-        self.set_state(["pending"] * len(exp._stages), [0] * len(exp._stages))
+        self.by_stage = {}
+        wg = exp.experimentGraph
+        self.comps = []
+        for name in networkx.topological_sort(exp.graph):
+            data = exp.graph.nodes[name]
+            stage = exp._stages[data['stageIndex']]
+            job = stage.jobWithName(data['componentSpecification'].identification.componentName)
+            comp = workflow.ComponentState(job, wg, create_engine=False)
+            self.comps.append(comp)
+            self.by_stage.setdefault(data['stageIndex'], []).append(comp)
+        for k in self.by_stage:
+            self.by_stage[k].sort(key=lambda c: c.specification.reference)
+        self.real = Controller(exp)
+        self.real.comp_lock = CountingLock()
+        self.comp_lock = self.real.comp_lock
+        self.nb = 0
+        self.inject_at = None
+        self.injected = False
+        self.n = len(exp._stages)
+        self.st, self.prog, self.start = None, None, None
 
-    def set_state(self, st, prog):
-        self.st, self.prog = st, prog
-        self._stageStates = {i: None for i, s in enumerate(st) if s != "pending"}
+    # -- imposing the model state on the real objects --
+    def _finish(self, comp):
+        comp.controllerState = self.codes.FINISHED_STATE
+        self.real.comp_done.add(comp.specification.reference)
+
+    def set_state(self, st, prog, start=1):
+        c = self.real
+        self.st, self.prog, self.start = list(st), list(prog), start
+        c.comp_done.clear()
+        c.currentStage = None
+        c._starting_index = None
+        for comp in self.comps:
+            comp.controllerState = None
+        # Controller.initialise of the stage the launcher starts from marks the earlier stages as finished and done
+        c.initialise(self.exp._stages[start - 1], FakeStatusDB())
+        for i, s_ in enumerate(st):
+            comps = self.by_stage[i]
+            if i < start - 1:
+                continue
+            if s_ == "finished":
+                for comp in comps:
+                    self._finish(comp)
+            elif s_ in ("active", "transit"):
+                for comp in comps[:prog[i]]:
+                    self._finish(comp)
+        act = [i for i, s_ in enumerate(st) if s_ == "active"]
+        c.currentStage = self.exp._stages[act[0] if act else self.n - 1]
 
     def apply(self, act, arg):
         i = arg - 1
-        st, prog = list(self.st), list(self.prog)
         if act == "Advance":
-            prog[i] += 1
+            self._finish(self.by_stage[i][self.prog[i]])
+            self.prog[i] += 1
         elif act == "Finish":
-            st[i] = "finished"
+            for comp in self.by_stage[i]:
+                self._finish(comp)
+            self.st[i] = "finished"
         elif act.startswith("NextStage"):
-            st[i] = act[len("NextStage"):]
-            st[i + 1] = "active"
-        self.set_state(st, prog)
+            how = act[len("NextStage"):]
+            if how == "finished":
+                for comp in self.by_stage[i]:
+                    self._finish(comp)
+            self.st[i] = how
+            self.st[i + 1] = "active"
+            self.real.currentStage = self.exp._stages[i + 1]
 
     def boundary(self):
         """called at every call the monitor makes into the controller: the moment another thread may have acted"""
@@ -178,34 +231,26 @@ class StubController:
             self.injected = True
             self.apply(self.inject_at[1], self.inject_at[2])
 
+    # -- what CheckStatus calls: the real methods, behind a boundary --
     def stage(self):
         self.boundary()
-        act = [i for i, s in enumerate(self.st) if s == "active"]
-        if act:
-            return self.exp._stages[act[0]]
-        # after the last stage finished the controller still reports the last stage
-        return self.exp._stages[len(self.st) - 1]
+        return self.real.stage()
 
-    def stageState(self, stage):
+    def stageState(self, stage=None):
         self.boundary()
-        return self.codes.RUNNING_STATE
+        return self.real.stageState(stage)
 
     def get_stages_in_transit(self):
         self.boundary()
-        return [i for i, s in enumerate(self.st) if s in ("transit", "active")]
+        return self.real.get_stages_in_transit()
 
     def get_stages_finished(self):
         self.boundary()
-        return [i for i, s in enumerate(self.st) if s == "finished"]
-
-    def get_components_in_stage(self, idx):
-        fin, oth = self.codes.FINISHED_STATE, self.codes.RUNNING_STATE
-        done = 4 if self.st[idx] == "finished" else self.prog[idx]
-        return [types.SimpleNamespace(state=fin if k < done else oth) for k in range(4)]
+        return self.real.get_stages_finished()
 
     def get_stage_status(self, idx):
         self.boundary()
-        return self._Controller.get_stage_status(self, idx)
+        return self.real.get_stage_status(idx)
 
     def generate_status_report_for_nodes(self, _):
         return ""
@@ -241,7 +286,7 @@ def check_progress(chk, states, scratch):
             mon.run(ctrl)
             fn = captured["fn"]
             for s in sts:
-                ctrl.set_state(s["st"], s["prog"])
+                ctrl.set_state(s["st"], s["prog"], s.get("start", 1))
                 if all(x == "finished" for x in s["st"]):
                     # the verdict at the end: the current stage is the last one and counts as finished
                     pass
@@ -278,7 +323,7 @@ def check_interleavings(chk, reports, scratch):
     import shutil
     allowed = {}
     for r in reports:
-        key = (r["n"], tuple(r["given"]), tuple(r["st0"]), tuple(r["prog0"]))
+        key = (r["n"], tuple(r["given"]), tuple(r["st0"]), tuple(r["prog0"]), r.get("start", 1))
         allowed.setdefault(key, {}).setdefault((r["act"], r["arg"]), set()).add(r["reported"])
     groups = {}
     for key in allowed:
@@ -299,29 +344,29 @@ def check_interleavings(chk, reports, scratch):
             mon.run(ctrl)
             fn = captured["fn"]
             for key in sorted(keys):
-                st0, prog0 = list(key[2]), list(key[3])
+                st0, prog0, start0 = list(key[2]), list(key[3]), key[4]
                 # dry run: how many calls into the controller does one CheckStatus make from this state?
-                ctrl.set_state(st0, prog0); ctrl.nb = 0; ctrl.inject_at = None; ctrl.injected = False
+                ctrl.set_state(st0, prog0, start0); ctrl.nb = 0; ctrl.inject_at = None; ctrl.injected = False
                 fn(False)
                 nb = ctrl.nb
                 base = int(round(float(exp.statusFile.totalProgress()) * 4 * UNIT))
                 if base not in allowed[key].get(("none", 0), set()):
-                    chk.violation("interleaving:quiet-check-differs", "n=%d weights=%s state=%s prog=%s: CheckStatus reports %d/40000, specification %s" % (
-                        n, list(given), st0, prog0, base, sorted(allowed[key].get(("none", 0), []))), {"kind": "inter", "key": key})
+                    chk.violation("interleaving:quiet-check-differs", "n=%d weights=%s start=%d state=%s prog=%s: CheckStatus reports %d/40000, specification %s" % (
+                        n, list(given), start0, st0, prog0, base, sorted(allowed[key].get(("none", 0), []))), {"kind": "inter", "key": key})
                 for (act, arg), vals in sorted(allowed[key].items()):
                     if act == "none":
                         continue
                     ok_vals = vals | allowed[key].get(("none", 0), set())
                     for b in range(2, nb + 2):
-                        ctrl.set_state(st0, prog0); ctrl.nb = 0; ctrl.inject_at = (b, act, arg); ctrl.injected = False
+                        ctrl.set_state(st0, prog0, start0); ctrl.nb = 0; ctrl.inject_at = (b, act, arg); ctrl.injected = False
                         fn(False)
                         runs += 1
                         got = int(round(float(exp.statusFile.totalProgress()) * 4 * UNIT))
                         chk.evaluated(("i", key, act, arg, b))
                         if got not in ok_vals or got > 4 * UNIT or got < 0:
-                            chk.violation("interleaving:stage-counted-inconsistently", "n=%d weights=%s: check begins in state=%s prog=%s, the controller does %s(%d) "
+                            chk.violation("interleaving:stage-counted-inconsistently", "n=%d weights=%s start=%d: check begins in state=%s prog=%s, the controller does %s(%d) "
                                           "at the monitor's call #%d: CheckStatus reports %.4f, the specification allows %s" % (
-                                              n, list(given), st0, prog0, act, arg, b, got / (4 * UNIT), sorted(v / (4 * UNIT) for v in ok_vals)),
+                                              n, list(given), start0, st0, prog0, act, arg, b, got / (4 * UNIT), sorted(v / (4 * UNIT) for v in ok_vals)),
                                           {"kind": "inter", "n": n, "given": list(given), "st0": st0, "prog0": prog0, "act": act, "arg": arg, "b": b})
             chk.trace_validated(1)
             shutil.rmtree(exp.instanceDirectory.location, ignore_errors=True)
@@ -341,7 +386,7 @@ def run(tier):
     common_w = "CONSTANTS\n  MinStages = 1\n  MaxStages = %d\n  %s\n" % (ms, grid)
     inv = "INVARIANT TypeOK\nINVARIANT WeightsNonNegative\nINVARIANT WeightsSumToOne\nINVARIANT GivenPreserved\n"
     # 1a. Normalise on the weight grid
-    c1 = _cfg(os.path.join(gen, "Progress_weights_%s.cfg" % tier), common_w + "  UseSpecial = TRUE\n  Emit = FALSE\nINIT Init\nNEXT Load\n" + inv + "CHECK_DEADLOCK FALSE\n")
+    c1 = _cfg(os.path.join(gen, "Progress_weights_%s.cfg" % tier), common_w + "  UseSpecial = TRUE\n  Restarts = FALSE\n  Emit = FALSE\nINIT Init\nNEXT Load\n" + inv + "CHECK_DEADLOCK FALSE\n")
     r = tlc.run_tlc("Progress", c1, timeout=1500)
     if not r["ok"]:
         raise MachineryError("Progress.tla: invariant %s fails on the model:\n%s" % (r["violated"], r["out"][-2000:]))
@@ -349,7 +394,7 @@ def run(tier):
     # 1b. progress state machine of the controller alone (no CheckStatus in progress)
     g2 = "GridPos = {0, 2500, 3333, 3334, 5000, 7500, 10000}\n  GridNeg = {}" if not thorough else \
          "GridPos = {0, 10, 2500, 3330, 3333, 3334, 3340, 5000, 7500, 10000}\n  GridNeg = {}"
-    c2 = _cfg(os.path.join(gen, "Progress_mc_%s.cfg" % tier), "CONSTANTS\n  MinStages = 1\n  MaxStages = 3\n  %s\n  UseSpecial = TRUE\n  Emit = FALSE\nSPECIFICATION SpecNoMon\n%s"
+    c2 = _cfg(os.path.join(gen, "Progress_mc_%s.cfg" % tier), "CONSTANTS\n  MinStages = 1\n  MaxStages = 3\n  %s\n  UseSpecial = TRUE\n  Restarts = TRUE\n  Emit = FALSE\nSPECIFICATION SpecNoMon\n%s"
               "INVARIANT TotalInRange\nINVARIANT TotalCompleteAtEnd\nPROPERTY Monotone\nCHECK_DEADLOCK FALSE\n" % (g2, inv))
     r = tlc.run_tlc("Progress", c2, timeout=1500, coverage=True)
     if not r["ok"]:
@@ -360,7 +405,7 @@ def run(tier):
     chk.add_tlc(r)
     # 1c. CheckStatus concurrent with the controller: the reported value stays a proper fraction
     g3 = "GridPos = {0, 2500, 5000, 7500, 10000}\n  GridNeg = {}"
-    c2b = _cfg(os.path.join(gen, "Progress_mon_%s.cfg" % tier), "CONSTANTS\n  MinStages = 1\n  MaxStages = %d\n  %s\n  UseSpecial = TRUE\n  Emit = FALSE\nSPECIFICATION Spec\n%s"
+    c2b = _cfg(os.path.join(gen, "Progress_mon_%s.cfg" % tier), "CONSTANTS\n  MinStages = 1\n  MaxStages = %d\n  %s\n  UseSpecial = TRUE\n  Restarts = TRUE\n  Emit = FALSE\nSPECIFICATION Spec\n%s"
                "INVARIANT ReportedInRange\nCHECK_DEADLOCK FALSE\n" % (2, g3 if not thorough else g2, inv))
     r = tlc.run_tlc("Progress", c2b, timeout=1500, coverage=True)
     if not r["ok"]:
@@ -370,7 +415,7 @@ def run(tier):
             raise MachineryError("action %s of Progress.tla never taken (vacuous run): %s" % (act, r["coverage"]))
     chk.add_tlc(r)
     # 2. weights, spec -> code
-    c3 = _cfg(os.path.join(gen, "Progress_emit_%s.cfg" % tier), "CONSTANTS\n  MinStages = 1\n  MaxStages = 3\n  %s\n  UseSpecial = TRUE\n  Emit = TRUE\nINIT Init\nNEXT Load\nINVARIANT EmitCase\nCHECK_DEADLOCK FALSE\n" % GRID_Q)
+    c3 = _cfg(os.path.join(gen, "Progress_emit_%s.cfg" % tier), "CONSTANTS\n  MinStages = 1\n  MaxStages = 3\n  %s\n  UseSpecial = TRUE\n  Restarts = FALSE\n  Emit = TRUE\nINIT Init\nNEXT Load\nINVARIANT EmitCase\nCHECK_DEADLOCK FALSE\n" % GRID_Q)
     r = tlc.run_tlc("Progress", c3, workers=1, timeout=900)
     cases = r["cases"]
     if len(cases) < 1000:
@@ -379,19 +424,19 @@ def run(tier):
     from ..realenv import FL
     check_weights(chk, cases, FL)
     if thorough:
-        c3b = _cfg(os.path.join(gen, "Progress_emit_many.cfg"), "CONSTANTS\n  MinStages = 1\n  MaxStages = 8\n  GridPos = {0, 1250, 10000}\n  GridNeg = {}\n  UseSpecial = TRUE\n  Emit = TRUE\nINIT Init\nNEXT Load\nINVARIANT EmitCase\nCHECK_DEADLOCK FALSE\n")
+        c3b = _cfg(os.path.join(gen, "Progress_emit_many.cfg"), "CONSTANTS\n  MinStages = 1\n  MaxStages = 8\n  GridPos = {0, 1250, 10000}\n  GridNeg = {}\n  UseSpecial = TRUE\n  Restarts = FALSE\n  Emit = TRUE\nINIT Init\nNEXT Load\nINVARIANT EmitCase\nCHECK_DEADLOCK FALSE\n")
         r = tlc.run_tlc("Progress", c3b, workers=1, timeout=900)
         check_weights(chk, r["cases"], FL)
     # 3. progress, spec -> code
     g4 = "GridPos = {0, 2500, 5000, 7500, 10000}\n  GridNeg = {}" if not thorough else "GridPos = {0, 2500, 3333, 3334, 5000, 7500, 10000}\n  GridNeg = {}"
-    c4 = _cfg(os.path.join(gen, "Progress_states_%s.cfg" % tier), "CONSTANTS\n  MinStages = 1\n  MaxStages = %d\n  %s\n  UseSpecial = TRUE\n  Emit = TRUE\nINIT Init\nNEXT NextNoMon\nINVARIANT EmitState\nCHECK_DEADLOCK FALSE\n" % (2 if not thorough else 3, g4))
+    c4 = _cfg(os.path.join(gen, "Progress_states_%s.cfg" % tier), "CONSTANTS\n  MinStages = 1\n  MaxStages = %d\n  %s\n  UseSpecial = TRUE\n  Restarts = TRUE\n  Emit = TRUE\nINIT Init\nNEXT NextNoMon\nINVARIANT EmitState\nCHECK_DEADLOCK FALSE\n" % (2 if not thorough else 3, g4))
     r = tlc.run_tlc("Progress", c4, workers=1, timeout=1500)
     states = r["cases"]
     if len(states) < 100:
         raise MachineryError("TLC emitted only %d progress states" % len(states))
     check_progress(chk, states, chk.scratch)
     # 4. many stages (stage names 'stage10' < 'stage2' lexicographically): usable weight vectors only, distinct per position
-    c5 = _cfg(os.path.join(gen, "Progress_many_%s.cfg" % tier), "CONSTANTS\n  MinStages = 11\n  MaxStages = %d\n  GridPos = {500, 1500, 4000}\n  GridNeg = {}\n  UseSpecial = FALSE\n  Emit = TRUE\n"
+    c5 = _cfg(os.path.join(gen, "Progress_many_%s.cfg" % tier), "CONSTANTS\n  MinStages = 11\n  MaxStages = %d\n  GridPos = {500, 1500, 4000}\n  GridNeg = {}\n  UseSpecial = FALSE\n  Restarts = FALSE\n  Emit = TRUE\n"
               "INIT Init\nNEXT Load\nINVARIANT EmitUsable\nINVARIANT WeightsSumToOne\nINVARIANT GivenPreserved\nCHECK_DEADLOCK FALSE\n" % (12 if thorough else 11))
     r = tlc.run_tlc("Progress", c5, workers=8, timeout=1500)
     chk.add_tlc(r)
@@ -405,7 +450,7 @@ def run(tier):
     check_progress(chk, [dict(n=c["n"], given=c["given"], w=c["expected"], st=["active"] + ["pending"] * (c["n"] - 1),
                               prog=[0] * c["n"], total=0) for c in pick], chk.scratch)
     # 5. CheckStatus concurrent with the controller
-    c6 = _cfg(os.path.join(gen, "Progress_reports_%s.cfg" % tier), "CONSTANTS\n  MinStages = 2\n  MaxStages = %d\n  GridPos = {%s}\n  GridNeg = {}\n  UseSpecial = TRUE\n  Emit = TRUE\n"
+    c6 = _cfg(os.path.join(gen, "Progress_reports_%s.cfg" % tier), "CONSTANTS\n  MinStages = 2\n  MaxStages = %d\n  GridPos = {%s}\n  GridNeg = {}\n  UseSpecial = TRUE\n  Restarts = TRUE\n  Emit = TRUE\n"
               "SPECIFICATION Spec\nINVARIANT EmitReport\nINVARIANT ReportedInRange\nCHECK_DEADLOCK FALSE\n" % ((2, "2500, 7500") if not thorough else (3, "2500, 5000")))
     r = tlc.run_tlc("Progress", c6, workers=1, timeout=1500)
     chk.add_tlc(r)
